@@ -19,7 +19,7 @@ fn mark(s: &[u8]) {
 }
 
 struct Buf {
-    b: [u8; 128],
+    b: [u8; 256],
     n: usize,
 }
 impl Write for Buf {
@@ -89,6 +89,7 @@ pub fn main() -> i32 {
     let mut ops: [&[u8]; 4] = [b"", b"", b"", b""];
     let mut nops = 0;
     let mut feed: Option<&[u8]> = None;
+    let mut payload_n = 0usize;
     for a in tiny_std::env::args_os().skip(1) {
         let s = a.as_slice();
         let s = &s[..s.len() - 1];
@@ -123,6 +124,7 @@ pub fn main() -> i32 {
                 }
             }
             b"feed" => feed = Some(v),
+            b"payload" => payload_n = num(v) as usize,
             b"bulk" => {} // iterator forms of the builder do not exist without alloc
             _ => return 2,
         }
@@ -135,7 +137,7 @@ pub fn main() -> i32 {
     let mut cl2: [&mut (dyn FnMut() -> tiny_std::Result<()> + Send + Sync); 2] = [&mut f1, &mut f2];
     let closures = &mut cl2[..npre];
     let me = rusl::process::get_pid();
-    let mut m = Buf { b: [0; 128], n: 0 };
+    let mut m = Buf { b: [0; 256], n: 0 };
     let uid = uid.map(|u| u as _);
     let gid = gid.map(|g| g as _);
     mark(b"MARK:spawn:begin");
@@ -178,6 +180,84 @@ pub fn main() -> i32 {
             let _ = p.write(f);
         }
         for op in ops[..nops].iter() {
+            m.n = 0;
+            match *op {
+                b"W" => {
+                    use tiny_std::io::Write as _;
+                    let mut off = 0usize;
+                    let mut res = "ok";
+                    if let Some(p) = child.stdin.as_mut() {
+                        let mut chunk = [0u8; 4096];
+                        while off < payload_n {
+                            let len = (payload_n - off).min(chunk.len());
+                            for (j, c) in chunk[..len].iter_mut().enumerate() {
+                                *c = (((off + j) * 7 + 13) % 251) as u8;
+                            }
+                            let mut done = 0;
+                            while done < len {
+                                match p.write(&chunk[done..len]) {
+                                    Ok(k) if k > 0 => done += k,
+                                    _ => {
+                                        res = "err";
+                                        break;
+                                    }
+                                }
+                            }
+                            off += done;
+                            if res != "ok" {
+                                break;
+                            }
+                        }
+                    } else {
+                        res = "nopipe";
+                    }
+                    let _ = write!(m, "MARK:io:W:{res}:{off}:0:0:");
+                    mark(&m.b[..m.n]);
+                    continue;
+                }
+                b"C" => {
+                    drop(child.stdin.take());
+                    mark(b"MARK:io:C:ok:0:0:0:");
+                    continue;
+                }
+                b"RO" | b"RE" => {
+                    use tiny_std::io::Read as _;
+                    let name = if *op == b"RO" { "RO" } else { "RE" };
+                    let pipe = if *op == b"RO" { &mut child.stdout } else { &mut child.stderr };
+                    if let Some(p) = pipe.as_mut() {
+                        let (mut n, mut a, mut b) = (0u64, 1u32, 0u32);
+                        let mut head = [0u8; 48];
+                        let mut hl = 0usize;
+                        let mut buf = [0u8; 4096];
+                        let res = loop {
+                            match p.read(&mut buf) {
+                                Ok(0) => break "eof",
+                                Ok(k) => {
+                                    for &c in &buf[..k] {
+                                        a = (a + u32::from(c)) % 65521;
+                                        b = (b + a) % 65521;
+                                        if hl < 48 {
+                                            head[hl] = c;
+                                            hl += 1;
+                                        }
+                                    }
+                                    n += k as u64;
+                                }
+                                Err(_) => break "err",
+                            }
+                        };
+                        let _ = write!(m, "MARK:io:{name}:{res}:{n}:{a}:{b}:");
+                        for c in &head[..hl] {
+                            let _ = write!(m, "{c:02x}");
+                        }
+                    } else {
+                        let _ = write!(m, "MARK:io:{name}:nopipe:0:0:0:");
+                    }
+                    mark(&m.b[..m.n]);
+                    continue;
+                }
+                _ => {}
+            }
             let r: tiny_std::Result<Option<i32>> = match *op {
                 b"wait" => child.wait().map(Some),
                 b"try" => child.try_wait(),
